@@ -124,6 +124,12 @@ def run_container(ctx, case, data, tmp, container, spelling, max_read, rng):
         gen = reg.split(**kw)
     elif container in ("wav", "wav_lazy", "wav_path_obj", "wave_obj"):
         path = os.path.join(tmp, "c_$TAKE_%TAKE%.wav" if (case["pcm_seed"] >> 30) & 1 else "c.wav")  # TAKE is a defined variable: still just characters
+        if (case["pcm_seed"] >> 31) & 3 == 3:
+            # named through a symbolic link to a directory and "..": another file sits where a lexical clean-up of the name points
+            path, decoy = AC.path_through_symlink(tmp, "c.wav")
+            with wave.open(decoy, "wb") as fp:
+                fp.setframerate(rate), fp.setsampwidth(width), fp.setnchannels(channels)
+                fp.writeframes(bytes(len(data)))
         with wave.open(path, "wb") as fp:
             fp.setframerate(rate)
             fp.setsampwidth(width)
@@ -138,6 +144,10 @@ def run_container(ctx, case, data, tmp, container, spelling, max_read, rng):
     elif container in ("raw", "raw_lazy", "raw_fmt_noext", "raw_obj"):
         name = "c_noext" if container == "raw_fmt_noext" else ("c_${TAKE}.raw" if (case["pcm_seed"] >> 30) & 1 else "c.raw")
         path = os.path.join(tmp, name)
+        if (case["pcm_seed"] >> 31) & 3 == 3:
+            path, decoy = AC.path_through_symlink(tmp, name)
+            with open(decoy, "wb") as fp:
+                fp.write(bytes(len(data)))
         with open(path, "wb") as fp:
             fp.write(data)
         if container == "raw_obj":
@@ -374,7 +384,13 @@ def run_shard(ctx):
             case = AC.random_split_case(rng, max_windows=30, small_rate=(i % 4 != 0))
             run_audio(ctx, case, tmp, rng, ctx.tier == "thorough")
             for f in os.listdir(tmp):
-                os.unlink(os.path.join(tmp, f))
+                p_ = os.path.join(tmp, f)
+                if os.path.isdir(p_) and not os.path.islink(p_):
+                    import shutil as _sh
+
+                    _sh.rmtree(p_, ignore_errors=True)
+                else:
+                    os.unlink(p_)
             if ctx.out_of_time():
                 break
     finally:
